@@ -925,6 +925,15 @@ class LoopEnv:
         v = self.loc.get(name)
         return v
 
+    def unique(self, cls, name):
+        """the local called `name`, or -- after a rename -- the only local of that kind"""
+        if name in self.loc and isinstance(self.loc[name], cls):
+            return self.loc[name]
+        cands = [v for k, v in self.loc.items() if isinstance(v, cls) and not k.startswith("__")]
+        if len(cands) == 1:
+            return cands[0]
+        raise KeyError(name)
+
 
 class LoopSpecs:
     """sidecar loop invariants: (function, ordinal of the loop in the function) -> callable(env) -> [(label, formula)]"""
